@@ -44,6 +44,23 @@ func init() {
 
 var rlDebug = os.Getenv("VERIF_DEBUG") != ""
 
+// watchdog: a scenario that does not finish within 60 s of WALL clock is a livelock (a run loop
+// spinning at one virtual instant never lets the bubble's clock advance). The bubble cannot be
+// killed, so report the failing input, flush and leave.
+func watchdog(w *bufio.Writer, key string, input func() string) (stop func()) {
+	done := make(chan struct{})
+	go func() {
+		select {
+		case <-done:
+		case <-time.After(60 * time.Second):
+			fmt.Fprintf(w, "MONFAIL\t%s\tscenario did not finish within 60 s of wall clock: a goroutine spins without letting virtual time advance (livelock)\t%s\n", key, input())
+			w.Flush()
+			os.Exit(0)
+		}
+	}()
+	return func() { close(done) }
+}
+
 type rlOut struct {
 	mu    sync.Mutex
 	cases []string // "1 <term>" / "0 <term>"
@@ -541,6 +558,12 @@ func runOneRL(c rlCase, o *rlOut) {
 				}
 			}
 			// monitors on the implementation's own numbers (independent of the model):
+			if s.KeepAlivePingSent && s.Now < s.LastPacketReceived+s.KeepAliveInterval {
+				o.fail("runloop/ka-flag-stale", fmt.Sprintf("%s: keepAlivePingSent is set only %v after the last received packet (keep-alive interval %v): it was not reset by that packet", rc.name, time.Duration(s.Now-s.LastPacketReceived), time.Duration(s.KeepAliveInterval)))
+			}
+			if s.FirstAckElicitingAft != 0 && s.FirstAckElicitingAft < s.LastPacketReceived {
+				o.fail("runloop/first-ae-stale", fmt.Sprintf("%s: firstAckElicitingPacketAfterIdleSentTime is %v older than the last received packet", rc.name, time.Duration(s.LastPacketReceived-s.FirstAckElicitingAft)))
+			}
 			if s.HandshakeComplete && s.TimerDeadlineOK && s.TimerDeadline > s.NextIdle {
 				o.fail("runloop/deadline-after-idle", fmt.Sprintf("%s: timer armed %v after the idle-timeout instant", rc.name, time.Duration(s.TimerDeadline-s.NextIdle)))
 			}
@@ -836,6 +859,10 @@ func runOneClose(c rlCloseCase, o *rlOut) {
 		if want := verifKindToClass(first.Kind); first.Kind != quic.VerifErrNil && first.Kind != quic.VerifErrOther && ck != want {
 			o.fail("runloop/first-cause", fmt.Sprintf("recorded cause class %d, first request class %d: %s", ck, want, c.String()))
 		}
+		// a non-QUIC error of a non-immediate close surfaces as INTERNAL_ERROR (one of the documented error types)
+		if first.Kind == quic.VerifErrOther && !first.Immediate && !(ak == ekTransport && ac == uint64(quic.InternalError)) {
+			o.fail("runloop/error-mapping", fmt.Sprintf("closeLocal(non-QUIC error): the API returns %v instead of a local INTERNAL_ERROR transport error: %s", aerr, c.String()))
+		}
 		sent := false
 		e.Router.mu.Lock()
 		for _, d := range e.Router.log {
@@ -859,6 +886,13 @@ func runOneClose(c rlCloseCase, o *rlOut) {
 		}
 		// monitors: a frame on the wire <=> local, not immediate; remote/immediate closes are silent
 		wantFrame := !first.Immediate && first.Kind != quic.VerifErrAppRemote && first.Kind != quic.VerifErrTransportRemote
+		// (timeouts, resets and version-negotiation errors are never requested as non-immediate closes through the
+		// API; what the code does with them is compared with the model only, see C17_silent_causes_refuted)
+		unusual := !first.Immediate && (first.Kind == quic.VerifErrIdle || first.Kind == quic.VerifErrHandshakeTimeout ||
+			first.Kind == quic.VerifErrStatelessReset || first.Kind == quic.VerifErrVersionNegotiation)
+		if unusual {
+			wantFrame = sent
+		}
 		if sent != wantFrame {
 			o.fail("runloop/close-frame-due", fmt.Sprintf("datagram sent at close = %v, expected %v: %s", sent, wantFrame, c.String()))
 		}
@@ -935,7 +969,9 @@ func runRunLoop(w *bufio.Writer, seed uint64, n int, args []string) {
 			continue
 		}
 		before := len(o.fails)
+		stop := watchdog(w, "runloop/livelock", tc.String)
 		runOneRL(tc, o)
+		stop()
 		for _, f := range o.fails[before:] {
 			fmt.Fprintf(w, "MONFAIL\t%s\t%s\t%s\n", f.key, f.desc, tc.String())
 		}
@@ -945,10 +981,13 @@ func runRunLoop(w *bufio.Writer, seed uint64, n int, args []string) {
 			fmt.Fprintf(w, "SAMPLE\ti=%d %s\n", i, tc.String())
 		}
 		for _, cc = range ccs {
+			stop := watchdog(w, "runloop/livelock", cc.String)
 			runOneClose(cc, o)
-		}
-		for _, f := range o.fails[before:] {
-			fmt.Fprintf(w, "MONFAIL\t%s\t%s\t%s\n", f.key, f.desc, cc.String())
+			stop()
+			for _, f := range o.fails[before:] {
+				fmt.Fprintf(w, "MONFAIL\t%s\t%s\t%s\n", f.key, f.desc, cc.String())
+			}
+			before = len(o.fails)
 		}
 	}
 	for _, cs := range o.cases {
